@@ -126,14 +126,14 @@ func initSyncExternals() {
 		return true
 	}
 	m := map[string]externalFn{
-		"(*sync.Mutex).Lock":       lock,
-		"(*sync.Mutex).Unlock":     unlock,
-		"(*sync.Mutex).TryLock":    trylock,
-		"(*sync.RWMutex).Lock":     lock,
-		"(*sync.RWMutex).Unlock":   unlock,
-		"(*sync.RWMutex).RLock":    rlock,
-		"(*sync.RWMutex).RUnlock":  runlock,
-		"(*sync.RWMutex).TryLock":  trylock,
+		"(*sync.Mutex).Lock":      lock,
+		"(*sync.Mutex).Unlock":    unlock,
+		"(*sync.Mutex).TryLock":   trylock,
+		"(*sync.RWMutex).Lock":    lock,
+		"(*sync.RWMutex).Unlock":  unlock,
+		"(*sync.RWMutex).RLock":   rlock,
+		"(*sync.RWMutex).RUnlock": runlock,
+		"(*sync.RWMutex).TryLock": trylock,
 		"(*sync.WaitGroup).Add": func(fr *frame, a []value) value {
 			c := fr.i.counterOf(a[0])
 			d := int(asInt64(a[1]))
